@@ -308,7 +308,7 @@ def render(src, env, lib=None, files=None):
             kw = dict(env)
             if lib is not None:
                 kw['lib'] = PageTemplate(lib)
-            out = PageTemplate(src)(f=f, **kw)
+            out = __import__('vlib.routes').routes.make(PageTemplate, src, 8, __import__('vlib.state').state.CTX)(f=f, **kw)
         return out, log
     except Exception as e:
         return 'RAISED %s %s' % (type(e).__name__, str(e).split('\n')[0][:120]), log
